@@ -61,6 +61,11 @@ def job(j):
         return guard(lambda: -operand(j['a']))
     if op == 'abs':
         return guard(lambda: abs(operand(j['a'])))
+    if op == 'abs_reuse':
+        # abs of an array quantity, then the SAME operand used again
+        a = operand(j['a'])
+        b = abs(a)
+        return {'abs': enc(b), 'a_after': enc(a), 'sum': guard(lambda: a + b), 'lt': guard(lambda: a < b), 'diff': guard(lambda: b - a)}
     if op == 'in_units':
         return guard(lambda: operand(j['a']).in_units(j['u']))
     if op == 'in_units_fn':
